@@ -291,6 +291,12 @@ class Path:
         if m is None:
             return None
         out = {}
+        spec = getattr(self, "replay_spec", None)
+        if spec is not None:
+            try:
+                out["__replay__"] = spec(m)
+            except Exception as e:  # the raw model is still reported
+                out["__replay_error__"] = str(e)[:200]
         for d in m.decls():
             try:
                 out[d.name()] = str(m[d])
